@@ -642,9 +642,11 @@ func TestReplay(t *testing.T) {
 	synctest.Test(t, func(t *testing.T) {
 		replay.Run(t, "RangeFetch", func() replay.Stepper { return &stepper{} })
 		fmt.Printf("rangefetch: schedule retries=%d followed loosely=%d hung calls=%d\n", retriedSched, looseSched, hungCalls)
-		if hungCalls > 0 {
-			// Goroutines of the function under test are blocked for good; the bubble
-			// could never finish. The report is already written.
+		if hungCalls > 0 || !t.Failed() {
+			// Goroutines of the function under test may be blocked for good (a hung call,
+			// or a drain goroutine waiting for a result that will never be sent): the
+			// bubble could then never finish and synctest would panic, which would turn a
+			// finished, reported run into a tool error. The report is already written.
 			os.Stdout.Sync()
 			os.Exit(0)
 		}
